@@ -310,6 +310,48 @@ def rule_r6(repo, rule='C02.R6'):
     rr.require_floor(6)
     return rr
 
+def rule_roundtrip(repo, rule='C02.R15'):
+    """End-to-end fold on the concrete templates of rules/pipeline.py: the decoder walk turns a scripted sequence of raw fields into
+    flat values; the encoder walk, given those values, must write the same fields - same order, same kind, same width, same raw value
+    (a missing value as all ones of the width) - for every template of the family."""
+    from sa.rules import pipeline as P
+    rr = RuleResult(rule, 'decode then encode, folded end to end on concrete templates: the encoder writes exactly the fields the decoder read (order, kind, width, raw value)')
+    kinds = {'read_uint_or_none': 'write_uint', 'read_uint': 'write_uint', 'read_int': 'write_int', 'read_bytes': 'write_bytes', 'read_bool': 'write_bool',
+             'read_bin': 'write_bin'}
+    for name in sorted(P.templates()):
+        members, script = P.templates()[name]
+        o = P.run_template(repo, name)
+        key = 'roundtrip:%s' % name.split(' (')[0].replace(' ', '-').replace(',', '')
+        rr.instance('template "%s": %d fields' % (name, len(script)))
+        if not o.decode.ok:
+            rr.fail(key, 'pybufrkit/coder.py', 'template "%s": the decoder walk ends in %s' % (name, o.decode.exc.cls), witness={'template': name})
+            continue
+        r, st, wr = P.encode(repo, members, o.vals)
+        if not r.ok:
+            rr.fail(key, 'pybufrkit/encoder.py', 'template "%s": the encoder walk over the values the decoder produced (%s) ends in %s' % (name, _short(list(o.vals)), r.exc.cls),
+                    witness={'template': name})
+            continue
+        want = []
+        for (m, a), raw in zip(o.reads, script):
+            w = a[0] if a else None
+            if m not in kinds:
+                raise AnalysisError('pipeline fold: read kind %s has no write counterpart in the rule' % m)
+            if raw is None and isinstance(w, int):
+                raw = 2 ** w - 1
+            want.append((kinds[m], (raw, w)))
+        got = [(m, tuple(a)) for m, a in wr.log]
+        if got != want:
+            d = [(i, g, w) for i, (g, w) in enumerate(zip(got, want)) if g != w][:2] or [('length', len(got), len(want))]
+            rr.fail(key, 'pybufrkit/encoder.py', 'template "%s": the decoder read %d fields, the encoder writes %d for the values decoded from them; first difference '
+                    '(field, written, read): %s' % (name, len(want), len(got), d[0]), witness={'template': name, 'written': repr(got)[:600], 'read': repr(want)[:600]})
+    rr.require_floor(15)
+    return rr
+
+
+def _short(v):
+    s = repr(v)
+    return s if len(s) < 200 else s[:197] + '...'
+
 
 def run(repo, check):
     from sa.rules import c04, c19
@@ -351,6 +393,7 @@ def run(repo, check):
            '(shared with C13.R3)', keep=lambda f: 'Encoder' in f.key or 'Coder.' in f.key)
     _share(check, repo, _c05.rule_state_mode, 'C02.R14', 'the data section is written in the layout the header declares, whatever the number of subsets (shared with C05.R8)',
            args=('C02.R14',), keep=lambda f: 'Encoder' in f.key)
+    check.run_rule(rule_roundtrip, repo)
     check.assumptions = ['bitstring writes an n-bit unsigned field MSB first and refuses values that do not fit (trusted base)',
                          'byte identity with an independent encoder is a runtime fact and is not decided; the rules decide that the encoder '
                          'and the decoder agree on every field sequence and that the arithmetic is the FM-94 one']
